@@ -62,9 +62,12 @@ def gen_cases(ctx):
     base = [c for c in c01.gen_cases(ctx) if c["kind"] != "replace-type"]
     rng = ctx.rng
     cases = []
-    for c in base:
+    for n, c in enumerate(base):
         c = dict(c)
         c["shadow"] = rng.random() < 0.5
+        # every fourth package: all mocks in ONE output file (what one mock is rendered with - type parameters, options - must not stick to the next)
+        if c["kind"] == "catalogue" and n % 4 == 1:
+            c["onefile"] = True
         cases.append(c)
     n = 10 if ctx.tier == "quick" else 80
     for k in range(n):
@@ -73,6 +76,16 @@ def gen_cases(ctx):
         cases.append({"kind": "embed", "inpkg": inpkg, "genseed": rng.randrange(1 << 30), "count": 8, "template": t, "formatter": rng.choice(["goimports", "gofmt", "noop"]),
                       "placement": rng.choice(["inpkg", "inpkg-test"]) if inpkg else rng.choice(["xtest", "outpkg", "outpkg-collide"]), "td": c01.td_options(rng, t),
                       "gomod": "plain", "srckind": "ordinary", "shadow": True})
+    # fixed: generic and non-generic interfaces alternating inside ONE output file, a generic one first
+    for inpkg in (True, False):
+        g = gosrc.Gen(random.Random(ctx.seed * 31 + inpkg), inpkg_only=inpkg)
+        cat = gosrc.catalogue(g)
+        gen_idx = [k for k, i in enumerate(cat) if i["feature"] in ("generic.two", "generic.any", "generic.comparable", "generic.three")]
+        plain_idx = [k for k, i in enumerate(cat) if i["feature"] in ("method.variadic-2-results", "method.embedded-std", "method.name-String-Error", "method.many")]
+        idx = [x for pair in zip(gen_idx, plain_idx) for x in pair]
+        for t in ("testify", "matryer"):
+            cases.append({"kind": "catalogue", "inpkg": inpkg, "genseed": ctx.seed * 31 + inpkg, "idx": idx, "template": t, "formatter": "gofmt",
+                          "placement": "inpkg-test" if inpkg else "outpkg", "td": {}, "gomod": "plain", "srckind": "ordinary", "shadow": False, "onefile": True})
     # replace-type towards an alias of the same type: the mock must stay assignable, and no neighbouring parameter may change
     for k, (t, pl) in enumerate((a, b) for a in ("testify", "matryer") for b in ("outpkg", "inpkg-test", "xtest")):
         cases.append({"kind": "replace-alias", "inpkg": False, "template": t, "formatter": ["gofmt", "noop", "goimports"][k % 3], "placement": pl, "td": {},
@@ -202,7 +215,7 @@ def eval_case(ctx, case):
     if pre.exit != 0:
         return [(case, Verdict.inconclusive("generated package rejected by the toolchain: " + (pre.err + pre.out)[-600:]))]
     ok, failures, r = mockgen.run_generation(ctx, root, info, case, ifaces)
-    tags = ["template=" + case["template"], "placement=" + case["placement"], "shadow=%s" % bool(case.get("shadow"))]
+    tags = ["template=" + case["template"], "placement=" + case["placement"], "shadow=%s" % bool(case.get("shadow"))] + (["one-file"] if case.get("onefile") else [])
     by_name = {i["name"]: i for i in ifaces}
     verdicts = []
     for name, ri in failures.items():
